@@ -387,7 +387,14 @@ def do_theory(req):
     return {'status': 'ok', 'steps': steps}
 
 
-HANDLERS = {'theory': do_theory, 'history': do_history, 'solve': do_solve, 'transform': do_transform, 'loop': do_loop, 'pyparse': do_pyparse, 'gparse': do_gparse}
+def do_intervalset(req):
+    """IntervalSet of transformers/head.py on a list of (left, right) pairs"""
+    import telingo.transformers.head as th
+    s = th.IntervalSet([tuple(x) for x in req['intervals']])
+    return {'status': 'ok', 'set': ' '.join('[%d,%d)' % (a, b) for a, b in s)}
+
+
+HANDLERS = {'intervalset': do_intervalset, 'theory': do_theory, 'history': do_history, 'solve': do_solve, 'transform': do_transform, 'loop': do_loop, 'pyparse': do_pyparse, 'gparse': do_gparse}
 
 
 def main():
